@@ -885,13 +885,16 @@ func replay(scenario string, input json.RawMessage) string {
 func main() {
 	vkit.Main(&vkit.Spec{
 		Property: "C15", Level: "model_checking",
-		Rule: "one case = (limit L in {1,2,100,1000,1025,5000}, receiver role, allocator capacity policy exact/pooled/stale, handler set OnMessage/OnDataFrame/both, frame list) x one segmentation; frame lists: single text/binary frames of L-1, L, L+1, 2L; every 2- and 3-tuple of fragment sizes over {0,1,L/2,L-1,L,L+1} with no ping / empty ping / 125-byte ping after the first fragment; permessage-deflate messages (zeros, text; flate level 1, 9; one frame or split in two) inflating to L-1, L, L+1, 4L, 1000L; control frames of 124..127 bytes alone and inside a fragmented message; family declared: a frame header that announces D payload bytes and is cut off after 0 or 3 of them (refused on the declared length alone), D over {L+1, 10^k-1 and 10^k for k=1..18, 125..127, 65535..65537, 2^31-1, 2^31, 2^32-1, 2^32, 2^40, 2^53, 2^62, 2^63-2, 2^63-1} above L (D <= 65535 also in longer-than-minimal length forms) plus 2^63, 2^63+1, 2^64-1, with L over {1, 100, 1025, 4194304 (default), 999999999999, 2^62, 2^63-2}, as single text/binary frame, first fragment, final/non-final continuation after a first fragment of 0, 1 or min(L-1,100) real bytes, and as ping/pong/close frame alone or inside a message; segmentations: one piece, every single cut (wires <= 2 KiB; structural cuts otherwise), byte-at-a-time (<= 4 KiB); send side: WriteMessage/WriteClose of control payloads 0..65536; ReadLimit {64,1024} x read sizes {1,63,64,65,1023,1024,1025} x frame sizes around the limit. A case is non-trivial when the message or a frame is at least L-1 bytes long or a read limit is configured. states = distinct private parser states after the Parse calls, transitions = Parse calls.",
+		Rule: "one case = (limit L in {1,2,100,1000,1025,5000}, receiver role, allocator capacity policy exact/pooled/stale, handler set OnMessage/OnDataFrame/both, frame list) x one segmentation; frame lists: single text/binary frames of L-1, L, L+1, 2L; every 2- and 3-tuple of fragment sizes over {0,1,L/2,L-1,L,L+1} with no ping / empty ping / 125-byte ping after the first fragment; permessage-deflate messages (zeros, text; one frame or split in two) inflating to L-1, L, L+1, L+2, 2L, 4L, 1000L, x deflate-stream ending {sync flush with the tail removed, final block BFINAL=1, final block + 00} x block type {stored (level 0), Huffman only (-2), fixed/dynamic Huffman with matches (1, 9)} x decompressor {nbio's flate reader, a custom WebsocketDecompressor that returns the last bytes together with io.EOF, one that returns a byte per Read}; control frames of 124..127 bytes alone and inside a fragmented message; family declared: a frame header that announces D payload bytes and is cut off after 0 or 3 of them (refused on the declared length alone), D over {L+1, 10^k-1 and 10^k for k=1..18, 125..127, 65535..65537, 2^31-1, 2^31, 2^32-1, 2^32, 2^40, 2^53, 2^62, 2^63-2, 2^63-1} above L (D <= 65535 also in longer-than-minimal length forms) plus 2^63, 2^63+1, 2^64-1, with L over {1, 100, 1025, 4194304 (default), 999999999999, 2^62, 2^63-2}, as single text/binary frame, first fragment, final/non-final continuation after a first fragment of 0, 1 or min(L-1,100) real bytes, and as ping/pong/close frame alone or inside a message; construction path of the Conn as a dimension: Upgrader engine == serving engine (hook constructor), build=rebind (Upgrader as NewUpgrader() makes it, Engine=DefaultEngine; Conn bound to the serving engine after its construction, as Upgrade scenario 1/2.2 and Dialer.DialContext do), family upgrade: the real Upgrader.Upgrade on a real nbhttp engine on the simulated kernel (handshake request from a simulated peer, scenario 1) and through its blocking-mode branch (real *nbhttp.Response + Parser over a fake conn), each with the Upgrader given the serving engine or left default; ReadLimit is configured on the serving engine only, MessageLengthLimit on the Upgrader (or left at its 4 MiB default); segmentations: one piece, every single cut (wires <= 2 KiB; structural cuts otherwise), byte-at-a-time (<= 4 KiB); send side: WriteMessage/WriteClose of control payloads 0..65536; ReadLimit {64,1024} x read sizes {1,63,64,65,1023,1024,1025} x frame sizes around the limit. A case is non-trivial when the message or a frame is at least L-1 bytes long or a read limit is configured. states = distinct private parser states after the Parse calls, transitions = Parse calls.",
 		Assumptions: []string{
 			"a message of exactly L bytes may be accepted or rejected (not judged); messages below L that are rejected are counted (under_limit_rejected) but not judged - the statement only forbids delivering/buffering more than L",
 			"'buffered' is observed as (a) the length of the message under assembly after every Parse call (hook VerifSeqState) and (b) the length of every buffer obtained from the allocator, which may not exceed max(L+14, unparsed input bytes legitimately cached)",
 			"with only OnDataFrame set no message is assembled: the limit is then demanded per frame only",
 			"over-limit => Parse error or closed conn, no OnMessage for that message, and the bytes written to the conn decode (reference decoder) into well-formed frames ending with a close frame of status 1009: FIN, no RSV bits, payload <= 125 bytes, minimal length form, masked iff the endpoint is a client, reason valid UTF-8, nothing after it (a malformed reply has the signature close-reply-malformed, a missing or differently coded one over-limit-no-1009)",
 			"an over-long control frame on receive must fail the connection without reaching its handler; the statement names no status for it: a close frame, if written, must be well-formed and carry 1009 or 1002 (recorded as outcome); in a longer-than-minimal length form an over-limit data frame may be answered with 1002 as well; a 64-bit length with the top bit set must fail the connection, its status is not judged",
+			"'the read limit' is the ReadLimit of the nbhttp.Config of the engine that serves the connection; 'the message length limit' is Upgrader.MessageLengthLimit (default 4 MiB); a user who calls websocket.NewUpgrader() and never touches Upgrader.Engine must get both",
+			"Dialer.DialContext is not reachable in the harness (it dials through net.Dial, no hook); its construction sequence (NewClientConn, then wsConn.Engine = parser.Engine) is what build=rebind performs on the client side",
+			"dimensions that cannot interact with the position of the cuts (construction path, stream ending, decompressor) run with one piece + byte-at-a-time in quick, with the full segmentation set in thorough",
 			"read limit: cached unparsed input <= ReadLimit + the last read's size at every moment, and a frame larger than that is refused",
 			"'refused on send' is read as WriteMessage/WriteClose returning ErrControlMessageTooBig and writing nothing; the raw WriteFrame is not judged",
 			"family declared, quick tier: allocator policies exact (OnMessage only) and pooled, 0 or 3 payload bytes present; thorough: all three policies x handler sets, 0/1/3/20 bytes present, every double cut, a first fragment of 1500 bytes for limits > 2000",
